@@ -2,6 +2,7 @@ import EaselModel.Core.Proto
 import EaselModel.Dsqdata.Codec
 import EaselModel.Dsqdata.Loader
 import EaselModel.WorkQueue.Model
+import EaselModel.Threads.Model
 /-! Line-protocol driver for the C12 models: dsqdata codec, loader arithmetic (through `dsqrt`), work queue
     (sequential differential ops `wq …`, and `wqtrace`: validation of an observed multi-threaded trace). -/
 open EaselModel EaselModel.Proto EaselModel.Dsqdata EaselModel.WorkQueue
@@ -148,6 +149,51 @@ def validate (size : Nat) (evs : List String) : String := Id.run do
           i := i + 1
   return s!"ok steps={i} wdeq={s.wDeq.length} rdeq={s.rDeq.length}"
 
+/-! ### esl_threads: validation of an observed start-gate trace
+records `tid/op/phase/end/startThread/threadCount`, op ∈ {T (master in WaitForStart), A (worker in Started), F (WaitForFinish done)} -/
+
+def thValidate (evs : List String) : String := Id.run do
+  let mut s := Threads.Sys.create
+  let mut i := 0
+  for raw in evs do
+    match raw.splitOn "/" with
+    | [tid, op, phase, fin, st, cnt] =>
+      match tid.toNat?, st.toNat?, cnt.toNat? with
+      | some tid, some st, some cnt =>
+        -- AddThread runs outside the mutex: insert the `add` steps the record implies
+        let need := if op == "T" then cnt else if op == "A" then tid + 1 else 0
+        while s.count < need do
+          match Threads.step s .add with
+          | some s' => s := s'
+          | none => return s!"notpath i={i} why=add-disabled ev={raw}"
+        let l : Option Threads.Label :=
+          match op, phase with
+          | "T", "f" => some .masterWait
+          | "T", "w" => some .masterWake
+          | "A", "f" => some (.arrive tid)
+          | "A", "w" => some (.workerWake tid)
+          | "F", _ => some .finish
+          | _, _ => none
+        match l with
+        | none => return s!"bad-event i={i}"
+        | some l =>
+          match Threads.step s l with
+          | none => return s!"notpath i={i} why=disabled ev={raw}"
+          | some s' =>
+            if op != "F" then
+              if s'.startThread != st then return s!"notpath i={i} why=startThread model={s'.startThread} impl={st} ev={raw}"
+              let asleep := if op == "T" then (match s'.master with | .waiting _ => true | _ => false)
+                            else s'.wWait.any (fun e => e.1 == tid)
+              if asleep != (fin == "c") then return s!"notpath i={i} why=wait model-asleep={asleep} ev={raw}"
+              -- the barrier property, checked on the observed state as well
+              if !s'.passed.isEmpty && !(s'.master == Threads.MSt.released && s'.notStarted.isEmpty) then
+                return s!"invariant i={i} what=passed-before-all-arrived ev={raw}"
+            s := s'
+            i := i + 1
+      | _, _, _ => return s!"bad-event i={i}"
+    | _ => return s!"bad-event i={i}"
+  return s!"ok steps={i}"
+
 /-! ### dsqdata end-to-end prediction -/
 
 def hexList (s : String) : List (List UInt8) :=
@@ -250,6 +296,14 @@ def step' (st : S) (line : String) : S × String :=
     | some items, some workers, some blocks =>
       (st, s!"ok items={items} processed={items} stops={workers} order=fifo final={blocks},0,0 removed={blocks}")
     | _, _, _ => (st, "bad-op")
+  | "thtrace" :: _ =>
+    match arg? ws "ev" with
+    | some ev => (st, thValidate (if ev == "-" then [] else ev.splitOn ";"))
+    | none => (st, "bad-op")
+  | "thrun" :: _ =>
+    match argNat? ws "workers", argNat? ws "rounds" with
+    | some n, some r => (st, s!"ok workers={n} rounds={r} idx=ok early=0")
+    | _, _ => (st, "bad-op")
   | "dsqrt" :: _ => (st, dsqrt ws)
   | _ => (st, "bad-op")
 
